@@ -3,11 +3,12 @@
 worktree are given (nothing from /verif)."""
 import json, sys
 pid = sys.argv[1]
+mn = sys.argv[2] if len(sys.argv) > 2 else '1'
 for l in open('/verif/properties.jsonl'):
     p = json.loads(l)
     if p['id'] == pid:
         break
-wt = '/tmp/seed8/%s' % pid
+wt = '/tmp/seed8/%s_%s' % (pid, mn) if mn != '1' else '/tmp/seed8/%s' % pid
 out = '/tmp/seed8_out/%s' % pid
 print(f"""You are helping to evaluate a verification framework by *seeding a realistic bug* into a Python library. You have about 12 minutes: be quick and decisive.
 
@@ -33,9 +34,9 @@ YOUR TASK: produce ONE realistic source change to the library (a small patch aga
 Many obvious mechanisms have been tried already (off-by-one at array ends, flipped comparisons, dropped keywords, absolute tolerances, lru_cache, mutable defaults, int dtypes, tiny/huge units). Prefer something different, for example: behaviour that depends on an input's LENGTH parity or being a power of two; on the NUMBER of components/cycles/columns reaching a particular count (exactly 1, exactly the cap, more than 9); on the ORDER of two calls or of entries in a dict/list argument; a state left behind on the error path; a value that is only wrong the SECOND time an object is used; interplay of two options that are each fine alone; NaN / inf / negative-zero / duplicate values; a boundary shared by two bins/cycles; aliasing between an output and an input or between two outputs; an exception type/silent fallback swapped; a less common public entry point or option value (look at the whole public API of the relevant files, not just the main function).
 
 Write into {out}/ :
-  - `mut1/patch.diff`  : output of `git -C {wt} diff`. It must apply cleanly with `git apply` to the unmodified checkout.
-  - `mut1/demo.py`     : a small self-contained program that takes the path of an emd checkout as argv[1] (it must do `sys.path.insert(0, sys.argv[1])` before importing emd), exits 0 and prints PASS on the unmodified code, and exits 1 and prints FAIL (with a short explanation of what was observed) on the changed code. Deterministic (seed any randomness) and fast (< 60 s).
-  - `mut1/meta.json`   : {{"property": "{pid}", "summary": "...what was changed...", "needs": "...what specific input/config/schedule/history is needed for it to manifest...", "files": [...], "tests_pass": true}}
+  - `mut{mn}/patch.diff`  : output of `git -C {wt} diff`. It must apply cleanly with `git apply` to the unmodified checkout.
+  - `mut{mn}/demo.py`     : a small self-contained program that takes the path of an emd checkout as argv[1] (it must do `sys.path.insert(0, sys.argv[1])` before importing emd), exits 0 and prints PASS on the unmodified code, and exits 1 and prints FAIL (with a short explanation of what was observed) on the changed code. Deterministic (seed any randomness) and fast (< 60 s).
+  - `mut{mn}/meta.json`   : {{"property": "{pid}", "summary": "...what was changed...", "needs": "...what specific input/config/schedule/history is needed for it to manifest...", "files": [...], "tests_pass": true}}
 
 Procedure: edit the worktree; run the test-suite (must be 38 passed); run your demo against the changed worktree (must FAIL); save the diff; then `git -C {wt} checkout -- .` to undo it, and run the demo against the clean worktree (must PASS). Leave the worktree clean at the end.
 
